@@ -437,11 +437,48 @@ class Recon:
         # bound argument tuple
         mp = strip(s2['i'])
         clo = None
-        for x, _ in walk(mp):
-            if x.get('k') == 'closure':
-                clo = x; break
+        if mp.get('k') == 'mcall' and mp['m'] == 'map' and mp['a'] and strip(mp['a'][0]).get('k') == 'closure':
+            clo = strip(mp['a'][0])
+        else:
+            for x, _ in walk(mp):
+                if x.get('k') == 'closure':
+                    clo = x; break
         if clo is None:
             self.fail('aggregation without argument closure', mp)
+        # a row filter in front of the argument closure: `.filter(|__val| _self.REL[**__val](.read().unwrap())?.N.eq(&(EXPR)))`
+        # selects the rows whose column N currently equals EXPR - an equality constraint on that column like a key (the value
+        # column of a lattice is compared, never used as an index key)
+        for x, _ in walk(mp):
+            if x.get('k') == 'mcall' and x['m'] == 'filter' and x['a'] and strip(x['a'][0]).get('k') == 'closure':
+                fclo = strip(x['a'][0])
+                if fclo is clo:
+                    continue
+                test = strip(fclo['b'])
+                while test.get('k') == 'block' and not test['ss'] and 'e' in test:
+                    test = strip(test['e'])
+                ok = False
+                if test.get('k') == 'mcall' and test['m'] == 'eq' and len(test['a']) == 1:
+                    recv = strip(test['r'])
+                    if recv.get('k') == 'field':
+                        base = strip(recv['e'])
+                        while base.get('k') == 'mcall' and base['m'] in ('unwrap', 'read'):
+                            base = strip(base['r'])
+                        if base.get('k') == 'index' and self_field(base['e'], self.p.self_ids) == cl['rel']:
+                            ix = strip(base['i'])
+                            while ix.get('k') == 'unary' and ix['op'] == 'deref':
+                                ix = strip(ix['e'])
+                            pl = local_of(ix)
+                            if pl is not None and fclo['ps'] and pat_bindings(fclo['ps'][0]) and pl['id'] == pat_bindings(fclo['ps'][0])[0]['id']:
+                                arg = strip(test['a'][0])
+                                while arg.get('k') == 'addr':
+                                    arg = strip(arg['e'])
+                                col = int(recv['n'])
+                                if col in cl['cols']:
+                                    self.fail('aggregation filters a column that is also a lookup key', x)
+                                cl['cols'][col] = ('key',) + term_of(arg)
+                                ok = True
+                if not ok:
+                    self.fail('aggregation with an unrecognised row filter', x)
         self._bind_closure_param(clo, ('val', cl))
         body = strip(clo['b'])
         bstm = body['ss'] if body.get('k') == 'block' else []
